@@ -40,6 +40,9 @@ class Killed(BaseException):
     pass
 
 
+CONTROL = tuple(getattr(core, n) for n in ("PathAbort", "Pruned", "BoundExceeded", "Unsupported", "HarnessError") if hasattr(core, n))
+
+
 class CoExit(BaseException):
     """os._exit() in a forked child"""
 
@@ -82,12 +85,10 @@ class Sched(object):
             co.result = ("exit",)
             for h in list(co.handles):
                 h.close()
-        except (core.HarnessError, getattr(core, "Unsupported", core.HarnessError)) as e:
+        except CONTROL as e:                 # explorer control flow (path abort, pruned shard, bound, unsupported, ...)
             co.error = e
-        except Exception as e:               # an exception of the code under test ends the thread, as in CPython
-            co.result = ("raise", e)
-        except BaseException as e:           # explorer control flow (path abort, bound, unsupported, ...)
-            co.error = e
+        except BaseException as e:           # an exception of the code under test -- KeyboardInterrupt and SystemExit
+            co.result = ("raise", e)         # included -- ends the thread, as in CPython
         co.state = "done"
         self.main.release()
 
@@ -177,6 +178,7 @@ class Endpoint(object):
         self.sent = []              # bytes the server wrote
         self.port = 40000 + len(world.endpoints)
         self.notconn = False        # getpeername fails with ENOTCONN (peer reset before the server looked)
+        self.reactor = None         # a client that reacts to what the server writes: reactor(endpoint, data)
 
     def readable(self):
         return bool(self.inbox) or self.shut or self.peer != "open" or self.refs == 0
@@ -259,6 +261,8 @@ class FakeSock(object):
         if ep.shut or ep.peer != "open":
             raise BrokenPipeError(errno.EPIPE, "Broken pipe")
         ep.sent.append(bytes(data))
+        if ep.reactor is not None:
+            ep.reactor(ep, bytes(data))
         return len(data)
 
     sendall = send
@@ -273,6 +277,13 @@ class FakeSock(object):
         if not self.closed:
             self.closed = True
             self.ep.refs -= 1
+
+    def detach(self):
+        """the descriptor leaves this object (which becomes a closed shell) without being closed"""
+        self._check()
+        self.closed = True
+        self.ep.refs -= 1
+        return self.fd
 
     def __repr__(self):
         return "<FakeSock %s fd=%s%s>" % (self.ep.name, self.fd, " closed" if self.closed else "")
@@ -604,6 +615,23 @@ def token_authenticator(sock):
     return sock, "user"
 
 
+def wrapping_authenticator(sock):
+    """like token_authenticator, but hands back a NEW socket object that has taken the connection over -- what ssl
+    wrapping does (SSLSocket is built from sock.detach()); the socket the server accepted is left as a closed shell"""
+    from rpyc.utils.authenticators import AuthenticationError
+    data = sock.recv(4)
+    if data != b"GOOD":
+        raise AuthenticationError("bad token")
+    new = sock.dup(sock.owner)
+    sock.detach()
+    sock.world.fds[new.fd] = new          # the descriptor number now belongs to the new object
+    return new, "user"
+
+
+AUTHENTICATORS = {False: None, None: None, True: token_authenticator, "token": token_authenticator, "wrap": wrapping_authenticator}
+AUTH_KINDS = [False, "token", "wrap"]
+
+
 def make_service():
     import rpyc
 
@@ -679,6 +707,33 @@ GARBAGE = {
     "B-truncated": [b"\x00\x00"],                                                # half a header
 }
 
+class LyingInspector(object):
+    """a misbehaving client that speaks the protocol: it sends a request whose argument is a reference to an object of an
+    unknown class; the server, unboxing it, asks about that class (INSPECT) -- and is answered with an *exception reply*
+    naming an exception class of the client's choosing (KeyboardInterrupt, SystemExit, ...)"""
+
+    def __init__(self, exc_name):
+        self.exc_name = exc_name
+        self.buf = b""
+
+    def first_request(self):
+        from rpyc.core import consts
+        return frame((consts.MSG_REQUEST, 1, (consts.HANDLE_REPR, (consts.LABEL_TUPLE, ((consts.LABEL_REMOTE_REF, ("nowhere.Unknown", 4242, 4343)),)))))
+
+    def __call__(self, ep, data):
+        from rpyc.core import consts
+        self.buf += data
+        msgs, clean = parse_frames(self.buf)
+        if not clean:
+            return
+        self.buf = b""
+        for m in msgs:
+            if type(m) is tuple and len(m) == 3 and m[0] == consts.MSG_REQUEST and m[2][0] == consts.HANDLE_INSPECT:
+                ep.inbox.append(frame((consts.MSG_EXCEPTION, m[1], (("builtins", self.exc_name), ("stop",), (), "remote traceback"))))
+
+
+LYING = {"B-lying-KeyboardInterrupt": "KeyboardInterrupt", "B-lying-SystemExit": "SystemExit", "B-lying-GeneratorExit": "GeneratorExit"}
+
 EVENTS = ["G", "C", "Lf", "Lr", "B-huge-length", "B-bad-zlib", "B-bad-brine", "B-truncated", "B-reset-early", "B-silent", "B-bad-token", "X", "XX"]
 
 
@@ -694,7 +749,7 @@ class Scenario(object):
         self.log = Log()
         cls = server_class(kind)
         kw = dict(port=0, hostname="127.0.0.1", logger=self.log, auto_register=False,
-                  authenticator=token_authenticator if with_auth else None)
+                  authenticator=AUTHENTICATORS[with_auth])
         if kind == "pool":
             kw["nbThreads"] = 2
         self.server = self._construct(cls, kw)
@@ -740,6 +795,10 @@ class Scenario(object):
                 ep.inbox.append(b"GOOD")
             if kind in GARBAGE:
                 ep.inbox.extend(GARBAGE[kind])
+            if kind in LYING:
+                liar = LyingInspector(LYING[kind])
+                ep.reactor = liar
+                ep.inbox.append(liar.first_request())
         w.listener_ep.pending.append(ep)
         self.clients.append(c)
         return c
